@@ -1,4 +1,5 @@
 import GoDcp.Proofs.LifeLemmas
+import GoDcp.Props.C11Run
 /-!
 # C13 — graceful shutdown is clean from every lifecycle state
 (run level; stream-level part of `dcp.close`: final save in auto mode, then `stream.Close`)
@@ -160,7 +161,34 @@ theorem after_shutdown_no_delivery {s : LSt} (ops : List LOp) (hC : PhC s) (vb q
   ⟨fun h => after_shutdown_quiet ops (Or.inr hC) _ h, fun h => after_shutdown_quiet ops (Or.inr hC) _ h,
    fun h => after_shutdown_quiet ops (Or.inr hC) _ h⟩
 
+/-- in a settled phase-C state every op other than a second `Close()` leaves the state alone and reports at
+    most a status: no timer fires, no callback is emitted -/
+theorem after_shutdown_settled {s : LSt} (op : LOp) (hd : s.dead = false) (hC : PhC s) (hs : Settled s)
+    (hns : ∀ c, op ≠ .shutdown c) :
+    (step s op).1 = s ∧ ∀ x ∈ (step s op).2, ∃ o a r st lo hi, x = LObs.status o a r st lo hi := by
+  by_cases hi : ignored s op = true
+  · rw [step_eq, hd, hi]; simp
+  · have hi' : ignored s op = false := by simpa using hi
+    have hop : op = .query := by
+      cases op <;> simp [ignored, hC.stop] at hi' <;> first | rfl | exact absurd rfl (hns _)
+    subst hop
+    rw [step_of_live hd hi']
+    have hcore : stepCore s .query = (s, [.status s.isOpen s.active s.rebalances s.stopClosed s.lo s.hi]) := rfl
+    rw [hcore, fireDue_of_none _ _ _ hs]
+    refine ⟨rfl, ?_⟩
+    intro x hx
+    simp only [List.append_nil, List.mem_cons, List.not_mem_nil, or_false] at hx
+    exact ⟨_, _, _, _, _, _, hx⟩
+
 /-! ## F4: the exact characterisation -/
+
+/-- the callbacks of the F4 step are still accepted by the automaton (`6 –BSP→ 10`): the run-time monitor of
+    the driver flags the fail-stop, not a bracketing error -/
+theorem F4_callbacks_accepted {s : LSt} (c : Bool) (hd : s.dead = false) (hB : PhB s) :
+    cbRun (code s) (cbOf (step s (.shutdown c)).2) = some 10 := by
+  rw [shutdown_on_nil c hd hB.1.obsNil hB.1.pos, hB.1.code]
+  rfl
+
 
 /-- **C13 `shutdown_in_window_failstop`.** In phase B `Close()` always fail-stops, right after
     `BeforeStreamStop` (nothing is written by the final save: the offsets map is empty). -/
@@ -168,9 +196,8 @@ theorem shutdown_in_window_failstop {s : LSt} (c : Bool) (hd : s.dead = false) (
     step s (.shutdown c) = ({ (finalSave s).1 with dead := true }, [.cb .BSP, .failstop "nil-observers"]) :=
   shutdown_on_nil c hd hB.1.obsNil hB.1.pos
 
-/-- phase B is exactly the classifier among the states in which the stream was opened and `Close()` was
-    not yet called -/
-theorem window_iff_KF {s : LSt} (hi : Inv s) (hd : s.dead = false) (hoc : s.isOpen = true ∨ s.balancing = true) :
+/-- phase B is exactly the classifier among the live states of the invariant -/
+theorem window_iff_KF {s : LSt} (hi : Inv s) (hd : s.dead = false) :
     KF_C13_in_rebalance_window s = true ↔ PhB s := by
   constructor
   · intro h
@@ -192,7 +219,7 @@ theorem close_terminates_partial {s : LSt} (c : Bool) (hi : Inv s) (hd : s.dead 
     rcases hoc' with h | h
     · exact h
     · have hB := hi.phB hd h
-      rw [(window_iff_KF hi hd hoc).2 hB] at hkf; cases hkf
+      rw [(window_iff_KF hi hd).2 hB] at hkf; cases hkf
   obtain ⟨h1, h2, h3, _⟩ := shutdown_from_A_clean c hd hi ho hs
   exact ⟨h1, h2, h3⟩
 
@@ -206,7 +233,7 @@ theorem close_failstops_iff {s : LSt} (c : Bool) (hi : Inv s) (hd : s.dead = fal
     | true => rfl
     | false => exact absurd hw ((close_terminates_partial c hi hd hoc hs hk).1 w)
   · intro hk
-    have hB := (window_iff_KF hi hd hoc).1 hk
+    have hB := (window_iff_KF hi hd).1 hk
     rw [shutdown_in_window_failstop c hd hB]
     exact ⟨"nil-observers", by simp⟩
 
@@ -221,11 +248,34 @@ theorem shutdown_before_open {s : LSt} (c : Bool) (hd : s.dead = false) (hP : Ph
     step s (.shutdown c) = ({ (finalSave s).1 with dead := true }, [.cb .BSP, .failstop "nil-observers"]) :=
   shutdown_on_nil c hd hP.obsNil hP.pos
 
-/-! ## the final save -/
+/-- **C13 `close_terminates_partial`** (run form). `Open`, then any benign op list (no second `Open`, no earlier
+    shutdown, transient ends only for assigned vBuckets): in the state reached, if it is settled and not inside
+    a rebalance window, `Close()` does not fail-stop and reaches phase C; inside a window it always
+    fail-stops (`close_failstops_iff`). -/
+theorem close_terminates_partial_run {s0 : LSt} (c : Bool) (hd : s0.dead = false) (ok : TimersOk s0) (hpre : PhPre s0)
+    (ops : List LOp) (hb : BenignRun (step s0 .open).1 ops)
+    (hs : Settled (run s0 (LOp.open :: ops)))
+    (hkf : KF_C13_in_rebalance_window (run s0 (LOp.open :: ops)) = false) :
+    (∀ w, LObs.failstop w ∉ (step (run s0 (LOp.open :: ops)) (.shutdown c)).2) ∧
+    (step (run s0 (LOp.open :: ops)) (.shutdown c)).1.dead = false ∧
+    PhC (step (run s0 (LOp.open :: ops)) (.shutdown c)).1 := by
+  obtain ⟨hr, _⟩ := rebalance_never_kills_client hd ok hpre ops hb
+  have hok : OpsOk s0 (LOp.open :: ops) := ⟨fun _ => hpre.everOpened, hb.opsOk⟩
+  have hi : Inv (run s0 (LOp.open :: ops)) := (run_good (.pre hd ok hpre) hok).inv
+  exact close_terminates_partial c hi hr.1 hr.2 hs hkf
 
-theorem vbs_nodup (lo hi : Nat) : (vbs lo hi).Nodup := by
-  unfold vbs
-  exact List.Pairwise.map _ (fun a b h => by omega) List.nodup_range
+/-- on calm runs (no notification ever queued on the lock or re-armed a fired timer) from an initial state
+    without pending timers the reached state is always settled: the fuel of `fireDue` suffices -/
+theorem settled_of_calm_run {s0 : LSt} (hd : s0.dead = false) (ok : TimersOk s0) (hpre : PhPre s0)
+    (hnt : ∀ t ∈ s0.timers, t.pending = false) (ops : List LOp) (hno : NoOpen ops)
+    (hkf1 : KF_C11_first_timer_nil (runTrace s0 (LOp.open :: ops)) = false)
+    (hkf2 : KF_C11_timer_reassigned (runTrace s0 (LOp.open :: ops)) = false)
+    (halive : (run s0 (LOp.open :: ops)).dead = false) : Settled (run s0 (LOp.open :: ops)) :=
+  run_calm_settled (.pre hd ok hpre) (OpsOk_open hpre.everOpened hno)
+    ⟨hpre.queued, fun t ht hp => by rw [hnt t ht] at hp; cases hp⟩
+    (dueTimer_none_of_no_pending _ hnt) (calm_of_KF hkf1 hkf2) halive
+
+/-! ## the final save -/
 
 /-- writing a list of pairs with distinct keys into a store -/
 theorem foldl_set_get? (w : AMap Nat) (st : AMap Nat) (hn : (AMap.keys w).Nodup) (x : Nat) :
